@@ -322,9 +322,10 @@ func runBarrierProbe(size, k int) PStress {
 				pool.Submit(func() { atomic.AddInt32(&counts[i], 1); shorts.Done() })
 			}
 		}()
+		// every Submit of the second goroutine has returned (the queue holds them all)
+		<-sub
 		// with one worker the short tasks queue up behind the held one: do not wait for them then
 		if o.Workers > 1 {
-			<-sub
 			shorts.Wait()
 		}
 		select {
@@ -589,7 +590,16 @@ func poolStressMain(prop, tier string, seed uint64, out, replay string) error {
 	// Wait concurrent with submissions from another goroutine
 	for rep := 0; rep < reps; rep++ {
 		for _, size := range []int{1, 2, 3, 4, 8} {
-			k := 1 + r.intn(3*size+4)
+			// at most as many short tasks as the queue holds (2 x workers): every Submit of the second
+			// goroutine returns while the held task keeps the counter above zero.  (A Submit that
+			// takes the counter up from zero while another goroutine's Wait has not returned is a
+			// misuse of sync.WaitGroup the pool does not protect against and the property does not
+			// ask for; the race detector reports it.)
+			w := size
+			if w < 1 {
+				w = 1
+			}
+			k := 1 + r.intn(2*w)
 			o := runBarrierProbe(size, k)
 			jl = append(jl, map[string]any{"id": id, "scen": id, "obs": o, "tags": []string{fmt.Sprintf("size=%d", size), "wait_while_others_submit"}})
 			cases = append(cases, coqCase{id: id, scen: fmt.Sprint(id), obs: o.Coq()})
